@@ -22,7 +22,7 @@ m("c01-end-plus-one", "C01", VM, "if mem_end > self.len() {", "if mem_end > self
 m("c01-subslice-checks-zero", "C01", VM, "let _ = self.compute_end_offset(offset, count)?;\n\n        // SAFETY: This is safe because the pointer is range-checked by compute_end_offset, and\n        // the lifetime",
   "let _ = self.compute_end_offset(offset, 0)?;\n\n        // SAFETY: This is safe because the pointer is range-checked by compute_end_offset, and\n        // the lifetime", "R1.2.range_checked")
 m("c01-split-at-clamped", "C01", VM, "let end = self.offset(mid)?;", "let end = self.offset(mid.min(self.size))?;", "R1.2.same_addr")
-m("c01-ref-at-le", "C01,C07", VM, "assert!(index < self.nelem);", "assert!(index <= self.nelem);", "R1.2.ref_at")
+m("c01-ref-at-le", "C01", VM, "assert!(index < self.nelem);", "assert!(index <= self.nelem);", "R1.2.ref_at")
 m("c01-array-wrapping-mul", "C01", VM, "            .and_then(|n| n.checked_mul(size_of::<T>() as isize))", "            .map(|n| n.wrapping_mul(size_of::<T>() as isize))", "R1.4.array_bytes")
 m("c01-alignment-mask", "C01", VM, "if ((self.addr as usize) & (alignment - 1)) != 0 {", "if ((self.addr as usize) & (alignment - 1)) > 1 {", "R1.5.alignment_mask")
 m("c01-region-weak-check", "C01", UX, "let _ = self.compute_end_offset(offset, count)?;", "if offset > self.size { return Err(volatile_memory::Error::OutOfBounds { addr: offset }); }", "R1.2.range_checked")
